@@ -1,3 +1,17 @@
+//! State-layer checks: C14 (overlay), C16 (key mapper), C17 (state root), C18 (pruning).
+//!
+//! Reusable oracles: [`model`] (R4: model database + update generator), [`smt`] (R5: sparse-Merkle
+//! reference root), [`treewalk`] (reachability over the physical tree nodes).
+
+pub mod model;
+pub mod smt;
+pub mod treewalk;
+
+pub mod c14;
+pub mod c16;
+pub mod c17;
+pub mod c18;
+
 pub fn checks() -> Vec<vf_core::Check> {
-    vec![]
+    vec![c14::check(), c16::check(), c17::check(), c18::check()]
 }
